@@ -1,26 +1,67 @@
-"""Contracts for the merge helpers Table._union_id_order / _intersect_id_order and biom.util.prefer_self (C09), Tier P."""
+"""Contracts for the merge helpers Table._union_id_order / _intersect_id_order (C09), Tier P.
+
+The dict the helpers build is modelled with its insertion order (keys[i] / pos[k]); the value stored for a key is its
+insertion position, so "the values are a bijection onto 0..len-1" is the well-formedness of that order.
+"""
 from pyvc.prove import contract
 
 F = 'biom/table.py'
-S, i = '__seq0', '__i0'
-
-BIJ = [
-    # the values are a bijection onto [0, size): distinct, in range, and every position is taken
-    "all(implies(k1 in {d} and k2 in {d} and k1 != k2, {d}[k1] != {d}[k2]) for k1 in strs() for k2 in strs())",
-    "all(implies(k in {d}, 0 <= {d}[k] and {d}[k] < {n}) for k in strs())",
-    "all(any(({s}[t] in {d}) and {d}[{s}[t]] == v for t in range(0, {hi})) for v in range(0, {n}))",
-]
+S = "at('loop0', all_ids)"
 
 contract(F, 'Table._union_id_order', tier='P', props=['C09'],
     types={'self': 'Val', 'a': 'Arr[Str]', 'b': 'Arr[Str]'},
-    locals={'new_order': 'Dict[Str,Int]'},
-    returns=None,
+    locals={'new_order': 'ODict[Str,Int]'},
+    returns='Dict[Str,Int]',
     ensures=[
         # exactly the union of the two id lists ...
-        "all((k in result) == ((k in a) or (k in b)) for k in strs())",
+        "all(a[t] in result for t in range(len(a))) and all(b[t] in result for t in range(len(b)))",
+        "all(any(a[t] == k for t in range(len(a))) or any(b[t] == k for t in range(len(b))) for k in result)",
+        # ... numbered 0 .. len-1 without gaps or repeats
+        "all(0 <= result[k] and result[k] < len(result) and keyat(result, result[k]) == k for k in result)",
+        "all(keyat(result, v) in result and result[keyat(result, v)] == v for v in range(len(result)))",
+        # in order of first occurrence in a followed by b
+        "all(implies(all(a[u] != a[t2] for u in range(0, t2)), result[a[t1]] < result[a[t2]]) "
+        "    for t2 in range(len(a)) for t1 in range(0, t2))",
+        "all(implies(all(a[u] != b[t2] for u in range(len(a))) and all(b[u] != b[t2] for u in range(0, t2)), "
+        "            all(result[a[t1]] < result[b[t2]] for t1 in range(len(a)))) for t2 in range(len(b)))",
     ],
     modifies=[],
-    loops={0: dict(header='for id_ in all_ids', invariant=[
-        "all((k in new_order) == any(%s[t] == k for t in range(0, %s)) for k in strs())" % (S, i),
-        "0 <= idx and idx <= %s" % i,
-    ] + [x.format(d='new_order', n='idx', s=S, hi=i) for x in BIJ])})
+    loops={0: dict(header='for id_ in all_ids', lemmas=[
+        # all_ids is a followed by b (stated with the triggers the postconditions need)
+        {'fact': "len(all_ids) == len(a) + len(b)", 'name': 'concat-len'},
+        {'fact': "all(all_ids[t] == a[t] for t in range(len(a)) if trig(a[t]))", 'name': 'concat-a'},
+        {'fact': "all(all_ids[len(a) + t] == b[t] for t in range(len(b)) if trig(b[t]))", 'name': 'concat-b'},
+    ], invariant=[
+        "idx == len(new_order)",
+        "all(%s[t] in new_order for t in range(0, __i0))" % S,
+        "all(any(%s[t] == k for t in range(0, __i0)) for k in new_order)" % S,
+        "all(new_order[k] == posof(new_order, k) for k in new_order)",
+        "all(implies(all(%s[u] != %s[t2] for u in range(0, t2)), new_order[%s[t1]] < new_order[%s[t2]]) "
+        "    for t2 in range(0, __i0) for t1 in range(0, t2))" % (S, S, S, S),
+    ])})
+
+contract(F, 'Table._intersect_id_order', tier='P', props=['C09'],
+    types={'self': 'Val', 'a': 'Arr[Str]', 'b': 'Arr[Str]'},
+    locals={'new_order': 'ODict[Str,Int]'},
+    # ids of one axis of a table are pairwise distinct (representation invariant)
+    requires=["all(implies(p < q, a[p] != a[q]) for p in range(len(a)) for q in range(len(a)))"],
+    returns='Dict[Str,Int]',
+    ensures=[
+        # exactly the ids of a that also occur in b ...
+        "all(implies(a[t] in b, a[t] in result) for t in range(len(a)))",
+        "all(k in b and any(a[t] == k for t in range(len(a))) for k in result)",
+        # ... numbered 0 .. len-1 without gaps or repeats, in the order of a
+        "all(0 <= result[k] and result[k] < len(result) and keyat(result, result[k]) == k for k in result)",
+        "all(keyat(result, v) in result and result[keyat(result, v)] == v for v in range(len(result)))",
+        "all(implies(a[t1] in result and a[t2] in result, result[a[t1]] < result[a[t2]]) "
+        "    for t2 in range(len(a)) for t1 in range(0, t2))",
+    ],
+    modifies=[],
+    loops={0: dict(header='for id_ in a', invariant=[
+        "idx == len(new_order)",
+        "all(implies(a[t] in b, a[t] in new_order) for t in range(0, __i0))",
+        "all(k in b and any(a[t] == k for t in range(0, __i0)) for k in new_order)",
+        "all(new_order[k] == posof(new_order, k) for k in new_order)",
+        "all(implies(a[t1] in new_order and a[t2] in new_order, new_order[a[t1]] < new_order[a[t2]]) "
+        "    for t2 in range(0, __i0) for t1 in range(0, t2))",
+    ])})
